@@ -34,7 +34,8 @@ type C13Case struct {
 	Writer     Op          `json:"writer"`
 	Writer2    *Op         `json:"writer2,omitempty"` // mode B: a second command that runs while the reader is stopped
 	Legacy     bool        `json:"legacy_name,omitempty"`
-	Mode       string      `json:"mode"` // "writer-stepped" | "reader-parked"
+	Mode       string      `json:"mode"` // "writer-stepped" | "reader-parked" | "writer-overtaken"
+	WriterPark *Inject     `json:"writer_park,omitempty"` // mode C: where the first writer is stopped before its lock
 	ReaderPark *Inject     `json:"reader_park,omitempty"`
 	Violations []Violation `json:"violations,omitempty"`
 	Observed   []readObs   `json:"observed,omitempty"`
@@ -90,7 +91,18 @@ func allowedOutputs(root string, cands [][]byte, cmds [][]string) map[string]map
 			_ = os.WriteFile(path, log, 0o644)
 			r := Run(Cmd{Args: c, Dir: root})
 			// a read may legitimately fail in one of the states the store passed through
-			// (show of an id the writer prunes); then exactly that failure is allowed
+			// (show of an id the writer prunes); then exactly that failure is allowed - but
+			// only for `show`, and only on a log whose lists can be read (a log that nothing
+			// can read is not a state of the store, whoever left it there)
+			if !r.OK() {
+				isShow := false
+				for _, a := range c {
+					isShow = isShow || a == "show"
+				}
+				if !isShow || !Run(Cmd{Args: []string{"--json", "list", "--all"}, Dir: root}).OK() {
+					continue
+				}
+			}
 			out[key][fmt.Sprintf("%d|%s", r.Code, r.Stdout)] = true
 		}
 	}
@@ -219,6 +231,81 @@ func readerParked(w *World, pre *Snapshot, writer Op, writer2 *Op, park Inject) 
 	return
 }
 
+// writerOvertaken stops writer a at a point before it takes the lock (whatever it has read
+// by then is stale), lets writer b run to completion and readers look at the result, then
+// lets a go on. a is a command that changes no existing item (compact, plan, new task / epic
+// outside any epic), so every existing item must read byte for byte as it did after b -
+// anything else is a state the store never passed through (b's acknowledged work dropped, or
+// an old log mixed with a new one). For compact the whole store must read the same.
+func writerOvertaken(w *World, pre *Snapshot, a, b Op, park Inject) (obs []readObs, viol []Violation, skipped string) {
+	cmds := readerCmds(pre)
+	if b.Target != nil {
+		if id := w.Resolve(*b.Target); id != "" {
+			cmds = append(cmds, []string{"--json", "show", id})
+		}
+	}
+	w.writeFiles(a.Files)
+	p, err := StartParked(w.Build(a), w.Root, &park)
+	if err != nil {
+		return nil, nil, "cannot start the writer: " + err.Error()
+	}
+	defer p.Close()
+	exited, timedOut := p.WaitParkedOrExit(hangLimit)
+	if exited || timedOut {
+		if timedOut {
+			p.Kill()
+		}
+		return nil, nil, "first writer was not stopped"
+	}
+	if holdsLock(p.calls()) {
+		p.Finish(hangLimit)
+		return nil, nil, "first writer already holds the lock"
+	}
+	w.writeFiles(b.Files)
+	rb := Run(w.Build(b))
+	if !rb.OK() {
+		p.Finish(hangLimit)
+		return nil, nil, "second writer failed: " + clip(rb.Stderr, 80)
+	}
+	read := func(where string) []readObs {
+		var out []readObs
+		for _, c := range cmds {
+			if a.Kind != "compact" && !(len(c) > 1 && c[1] == "show") {
+				continue // the first writer adds items: lists legitimately change
+			}
+			r := Run(Cmd{Args: c, Dir: w.Root})
+			out = append(out, readObs{where, c, r.Code, r.Stdout, r.Stderr})
+		}
+		return out
+	}
+	where1 := fmt.Sprintf("after `%s` was acknowledged, while `%s` is stopped after %s #%d (before it takes the lock)", strings.Join(w.Build(b).Args, " "), strings.Join(w.Build(a).Args, " "), park.Syscall, park.When)
+	r1 := read(where1)
+	ra, _, hung := p.Finish(hangLimit)
+	if hung {
+		return r1, nil, "first writer did not finish"
+	}
+	where2 := fmt.Sprintf("after the stopped `%s` went on (exit %d)", strings.Join(w.Build(a).Args, " "), ra.Code)
+	r2 := read(where2)
+	obs = append(r1, r2...)
+	for i := range r1 {
+		key := strings.Join(r1[i].Args, " ")
+		if r1[i].Exit != 0 {
+			// only `show` of an id that the second writer pruned may fail
+			continue
+		}
+		switch {
+		case r2[i].Exit != 0:
+			viol = append(viol, Violation{"C13", fmt.Sprintf("`%s` fails %s although it succeeded before and nothing it shows was touched since: %s", key, where2, clip(r2[i].Err, 200))})
+		case r2[i].Out != r1[i].Out:
+			viol = append(viol, Violation{"C13", fmt.Sprintf("`%s` %s no longer shows what it showed %s - a state the store never passed through: %s", key, where2, where1, clip(diffHint(r1[i].Out, r2[i].Out), 300))})
+		}
+		if len(viol) >= 3 {
+			break
+		}
+	}
+	return
+}
+
 func genWriterOp(t *rapid.T, w *World, pre *Snapshot) Op {
 	if pct(t, 55, "writer.multi") {
 		return genMultiEventOp(t, w, pre)
@@ -283,7 +370,9 @@ func TestC13(t *testing.T) {
 				t.Fatalf("setup failed")
 			}
 			var viol []Violation
-			if cc.Mode == "reader-parked" {
+			if cc.Mode == "writer-overtaken" {
+				_, viol, _ = writerOvertaken(w, pre, cc.Writer, *cc.Writer2, *cc.WriterPark)
+			} else if cc.Mode == "reader-parked" {
 				_, viol, _ = readerParked(w, pre, cc.Writer, cc.Writer2, *cc.ReaderPark)
 			} else {
 				_, viol, _, _ = writerStepped(w, pre, cc.Writer)
@@ -349,7 +438,49 @@ func TestC13(t *testing.T) {
 			stats.Eval()
 			return
 		}
-		mode := oneOf(rt, []string{"writer-stepped", "writer-stepped", "reader-parked"}, "mode")
+		mode := oneOf(rt, []string{"writer-stepped", "writer-stepped", "reader-parked", "writer-overtaken"}, "mode")
+		if mode == "writer-overtaken" {
+			a := Op{Kind: "compact", N: 500}
+			switch uni(rt, 4, "overtaken.a") {
+			case 0:
+				a = Op{Kind: "plan", N: 500, Plan: genRichPlan(rt, w)}
+			case 1:
+				a = Op{Kind: "new_task", N: 500, Mode: "json", Title: sp(w.UniqueTitle("late"))}
+			}
+			var b Op
+			ids := pre.SortedIDs()
+			if len(ids) > 0 && pct(rt, 75, "overtaken.b.set") {
+				g := refGen{rt, w, pre}
+				ref := g.ref(ids[uni(rt, len(ids), "overtaken.b.target")])
+				b = Op{Kind: "set", N: 501, Mode: "json", Target: &ref, Title: sp(w.UniqueTitle("retitled meanwhile")), Agent: "a1"}
+			} else {
+				b = Op{Kind: "new_task", N: 501, Mode: "json", Title: sp(w.UniqueTitle("meanwhile"))}
+			}
+			pts, lastAcq, _ := w.parkCandidatesGap(a)
+			if lastAcq <= 0 {
+				stats.Label("skipped")
+				stats.Eval()
+				return
+			}
+			park := pts[uni(rt, lastAcq, "overtaken.at")]
+			cc := C13Case{Property: "C13", Engine: "SCHED", Test: "TestC13", Setup: setup, TornTail: torn, BigBody: big, Writer: a, Writer2: &b, Mode: mode, Legacy: legacy, WriterPark: &park}
+			obs, viol, skipped := writerOvertaken(w, pre, a, b, park)
+			if skipped != "" {
+				stats.Label("skipped.overtaken: " + skipped)
+			} else {
+				stats.NonTrivial(fmt.Sprintf("%s/C/%s#%d/torn=%v/big=%v", a.Kind, park.Syscall, park.When, torn > 0, big > 0))
+			}
+			stats.Label("mode.writer_overtaken")
+			if len(viol) > 0 {
+				cc.Violations = viol
+				cc.Observed = obs
+				WriteReplay(replayPath, cc)
+				rt.Fatalf("C13 violated: %v", viol)
+			}
+			stats.Eval()
+			stats.Sample(len(obs), map[string]any{"first_writer": strings.Join(w.Build(a).Args, " "), "second_writer": strings.Join(w.Build(b).Args, " "), "mode": mode, "writer_park": park, "torn_tail_bytes": torn, "big_body_bytes": big, "reads": len(obs)})
+			return
+		}
 		if torn > 0 && pct(rt, 50, "torn.readerparked") {
 			mode = "reader-parked" // a reader that has consumed the fragment while a writer repairs it
 		}
@@ -431,5 +562,137 @@ func TestC13(t *testing.T) {
 			stats.Label("pre.log_over_64KiB")
 		}
 		stats.Sample(len(obs), map[string]any{"writer": strings.Join(w.Build(writer).Args, " "), "mode": mode, "reader_park": cc.ReaderPark, "torn_tail_bytes": torn, "big_body_bytes": big, "reads": len(obs)})
+	})
+}
+
+// TestC03Conc: after a crash that left a torn tail, readers and a writer meet. A reader is
+// stopped at a drawn call (it may already have looked at the fragment), a writer runs to
+// completion and is acknowledged, the reader goes on. Whatever the reader does about the
+// fragment, the acknowledged write must still be there: the log must be byte for byte what
+// the writer left, and the store must read as it did right after the writer.
+func TestC03Conc(t *testing.T) {
+	if err := StraceAvailable(); err != nil {
+		t.Skipf("INFRA: %v", err)
+	}
+	if os.Getenv("VERIF_MINIMIZE_IN") != "" {
+		return
+	}
+	run := func(w *World, pre *Snapshot, writer Op, park Inject) (viol []Violation, landed int) {
+		for _, c := range readerCmds(pre) {
+			trial := w.At(CloneStore(w.Root, "c03c"))
+			trial.writeFiles(writer.Files)
+			p, err := StartParked(Cmd{Args: c, Dir: trial.Root}, trial.Root, &park)
+			if err != nil {
+				RemoveAll(trial.Root)
+				return nil, landed
+			}
+			exited, _ := p.WaitParkedOrExit(hangLimit)
+			wr := Run(trial.Build(writer))
+			logAfterWriter := ReadLog(trial.Root)
+			snapW, errW := TakeSnapshot(trial.Root)
+			if !exited {
+				landed++
+				p.Finish(hangLimit)
+			}
+			p.Close()
+			if wr.OK() && errW == nil {
+				if cur := ReadLog(trial.Root); string(cur) != string(logAfterWriter) {
+					viol = append(viol, Violation{"C03", fmt.Sprintf("a crash left a torn tail; `%s` was then acknowledged while the reader `%s` was stopped after %s #%d; after the reader went on the log is no longer what the writer left (%d -> %d bytes)", strings.Join(trial.Build(writer).Args, " "), strings.Join(c, " "), park.Syscall, park.When, len(logAfterWriter), len(cur))})
+				}
+				if snapR, err := TakeSnapshot(trial.Root); err != nil {
+					viol = append(viol, Violation{"C03", "store unreadable after a reader and a writer met on a torn tail: " + err.Error()})
+				} else if d := DiffSnap(snapW, snapR, DiffOpts{}); len(d) > 0 {
+					viol = append(viol, Violation{"C03", fmt.Sprintf("acknowledged work changed or vanished after the stopped reader `%s` went on: %s", strings.Join(c, " "), clip(strings.Join(d, "; "), 400))})
+				}
+			}
+			RemoveAll(trial.Root)
+			if len(viol) > 0 {
+				return
+			}
+		}
+		return
+	}
+	if p := os.Getenv("VERIF_REPLAY_IN"); p != "" {
+		b, _ := os.ReadFile(p)
+		var cc C13Case
+		if err := json.Unmarshal(b, &cc); err != nil || cc.ReaderPark == nil {
+			t.Fatal("bad replay file")
+		}
+		for rep := 0; rep < 3; rep++ {
+			w := NewWorld("c03c-replay")
+			pre, ok := setupC13(w, cc.Setup, cc.TornTail, cc.BigBody, cc.Legacy)
+			if !ok {
+				w.Close()
+				t.Fatalf("setup failed")
+			}
+			viol, _ := run(w, pre, cc.Writer, *cc.ReaderPark)
+			w.Close()
+			if len(viol) > 0 {
+				t.Fatalf("REPLAY-VIOLATION C03: %v", viol)
+			}
+		}
+		return
+	}
+	stats := NewStats("C03", "SCHED/torn-tail-reader-vs-writer", "a generated store whose log ends in an unparsable fragment (1-60 bytes, or 2-140 KB behind a log larger than 64 KiB) - the residue of a crash -, a generated writer (any mutating command) and each of the usual read commands stopped after a drawn one of its calls (open, stat, first / second / third read) while the writer runs to completion; the reader is then resumed; oracle: the log is byte for byte what the acknowledged writer left and the store reads as it did right after the writer; non-trivial = the reader was really stopped across the writer; distinct = (writer shape, park point, size class)")
+	defer stats.Flush()
+	deadline := budgetDeadline()
+	replayPath := ReplayOutPath("C03")
+	rapid.Check(t, func(rt *rapid.T) {
+		if !deadline.IsZero() && time.Now().After(deadline) {
+			stats.Shortfall = "wall-clock guard reached before all requested cases ran"
+			return
+		}
+		w := NewWorld("C03c")
+		defer func() { w.Close() }()
+		var setup []Op
+		pre, _ := TakeSnapshot(w.Root)
+		for i, n := 0, between(rt, 2, 8, "setup.n"); i < n; i++ {
+			op := genOp(rt, w, pre, setupProfile)
+			op.N = i
+			out := w.Step(pre, op)
+			if out.Post == nil || out.Abort != "" || len(out.Viol) > 0 {
+				stats.Abort("setup history hit a violation of another property")
+				return
+			}
+			setup = append(setup, op)
+			pre = out.Post
+		}
+		big := 0
+		torn := between(rt, 1, 60, "torn.size")
+		if pct(rt, 25, "big") {
+			big = between(rt, 66000, 140000, "big.size")
+			if pct(rt, 50, "torn.big") {
+				torn = oneOf(rt, []int{2000, 30000, 65000, 66000, 70000, 140000}, "torn.bigsize")
+			}
+		}
+		legacy := pct(rt, 12, "legacy")
+		w2 := NewWorld("C03d")
+		w.Close()
+		w = w2
+		pre, ok := setupC13(w, setup, torn, big, legacy)
+		if !ok {
+			stats.Abort("setup replay failed")
+			return
+		}
+		writer := genWriterOp(rt, w, pre)
+		writer.N = 500
+		if w.Predict(pre, writer).Decision == MustReject {
+			stats.Label("writer.rejected_by_model")
+			stats.Eval()
+			return
+		}
+		park := oneOf(rt, []Inject{{"openat", 1, "stop", ""}, {"read", 1, "stop", ""}, {"read", 2, "stop", ""}, {"read", 3, "stop", ""}, {"newfstatat", 1, "stop", ""}, {"newfstatat", 2, "stop", ""}, {"newfstatat", 3, "stop", ""}, {"openat", 2, "stop", ""}, {"openat", 3, "stop", ""}}, "reader.park")
+		viol, landed := run(w, pre, writer, park)
+		if len(viol) > 0 {
+			WriteReplay(replayPath, C13Case{Property: "C03", Engine: "SCHED", Test: "TestC03Conc", Setup: setup, TornTail: torn, BigBody: big, Writer: writer, Mode: "reader-parked", Legacy: legacy, ReaderPark: &park, Violations: viol})
+			rt.Fatalf("C03 violated: %v", viol)
+		}
+		stats.Eval()
+		stats.LabelN("readers_stopped_across_the_writer", landed)
+		if landed > 0 {
+			stats.NonTrivial(fmt.Sprintf("%s/%s/%s#%d/big=%v/tornbig=%v", writer.Kind, fieldSig(writer), park.Syscall, park.When, big > 0, torn > 1000))
+		}
+		stats.Label("cmd." + writer.Kind)
+		stats.Sample(landed, map[string]any{"writer": strings.Join(w.Build(writer).Args, " "), "reader_park": park, "torn_tail_bytes": torn, "big_body_bytes": big, "readers_stopped": landed})
 	})
 }
